@@ -10,7 +10,7 @@ from ..core import Violation
 META = {
     "level": "exploration",
     "rule": ("case = cube (shape built against the blockshape: <, =, >, several blocks per axis) or 2D section x valid "
-             "setting x reader {segyio, reduced-I/O} x route {SEG-Y IBM/IEEE, NumPy}; oracle: get_source_data_hash() == "
+             "setting x reader {segyio, reduced-I/O} x route {SEG-Y IBM/IEEE, NumPy} x header-detection mode; oracle: get_source_data_hash() == "
              "sha1(real float32 samples in trace order, little-endian) computed by the harness from what the source "
              "library returns; metamorphic: a second setting gives the same hash, one perturbed sample (first/last "
              "trace, last sample, next to padding, interior) gives a different one, re-blocking keeps it; non-trivial = "
@@ -38,7 +38,8 @@ def cases(draw):
     kind = draw(st.sampled_from(["segy3d", "segy3d", "numpy", "2d"]))
     c = {"kind": kind, "values": draw(gen.values_spec), "fmt": draw(st.sampled_from([1, 5])),
          "reader": draw(st.sampled_from(["segyio", "reduced"])), "pert": draw(st.sampled_from(["first", "last", "interior", "lastsample", "edge"])),
-         "u": [draw(st.floats(0, 1, exclude_max=True)) for _ in range(3)], "reuse": draw(st.sampled_from([False, False, True]))}
+         "u": [draw(st.floats(0, 1, exclude_max=True)) for _ in range(3)], "reuse": draw(st.sampled_from([False, False, True])),
+         "mode": draw(st.sampled_from(["strip", "heuristic", "thorough", "exhaustive"]))}
     if kind == "2d":
         s1 = draw(st.sampled_from([s for s in gen.SETTINGS_2D if s[0] >= 1]))
         s2 = draw(st.sampled_from([s for s in gen.SETTINGS_2D if s[0] >= 1]))
@@ -82,7 +83,7 @@ def convert(case, data, out, setting, d, tag, earlier=()):
         sgy.write_segy(path, data.reshape(-1, ns), cols, 4000, fmt=case["fmt"], grid=(il, xl))
         src = sgy.read_source(path)["traces"]
     conv.segy_convert(path, out, rate, bs, reduce_iops=(case["reader"] == "reduced" and case["kind"] != "2d"),
-                      header_detection="strip", earlier=earlier)
+                      header_detection=case.get("mode", "strip"), earlier=earlier)
     return src
 
 
@@ -141,7 +142,8 @@ def run_case(case, ctx):
     n = shape[0]
     nontriv = n % bs[k] != 0 or n > bs[k]
     return {"sig": [case["kind"], gen.dim_class(n, bs[k]), n % 4, case["s1"], case["reader"], case["fmt"], case["pert"]] if nontriv else None,
-            "labels": [case["kind"], "groups>1" if n > bs[k] else "one-group", case["pert"]] + (["reused-converter"] if case.get("reuse") else [])}
+            "labels": [case["kind"], "groups>1" if n > bs[k] else "one-group", case["pert"], "mode:" + case.get("mode", "strip")]
+            + (["reused-converter"] if case.get("reuse") else [])}
 
 
 def shard_main(ctx):
